@@ -70,10 +70,14 @@ def S_canon(s):
     import json
 
     def norm(x):
-        # ["cls", "object"] and ["obj"] are the same annotation
+        # ["cls", "object"] and ["obj"] are the same annotation; unions / intersections / Literals are sets
         if isinstance(x, list):
             if x == ["cls", "object"]:
                 return ["obj"]
+            if len(x) == 2 and x[0] in ("union", "inter") and isinstance(x[1], list):
+                return [x[0], sorted((norm(y) for y in x[1]), key=lambda z: json.dumps(z, sort_keys=True))]
+            if len(x) == 2 and x[0] == "lit" and isinstance(x[1], list):
+                return ["lit", sorted(x[1], key=lambda z: json.dumps(z))]
             return [norm(y) for y in x]
         return x
 
